@@ -171,7 +171,8 @@ fn implementors(bytes: &[u8], cut1: usize, cut2: Option<usize>, extra_tail: &[u8
 }
 
 #[allow(clippy::too_many_arguments)]
-fn getter_case(o: &mut Obs, row: &getters::Row, path: usize, iname: &str, spec: &Spec, nbytes: usize, avail: usize, case: &str) {
+fn getter_case(o: &mut Obs, row: &getters::Row, path: usize, iname: &str, spec: &Spec, nbytes: usize, avail: usize, case: &str) -> u64 {
+    let mut dg = 0u64;
     // spec denotes `avail` bytes; the getter needs `w`
     let w = if row.width == 0 { nbytes } else { row.width };
     let model = spec.model();
@@ -187,6 +188,7 @@ fn getter_case(o: &mut Obs, row: &getters::Row, path: usize, iname: &str, spec: 
         if row.width == 0 && nbytes > 8 {
             // must be rejected
             let r = if which == 0 { catch(|| (row.get[path])(&mut b, nbytes)).map(|_| ()) } else { catch(|| (row.try_get[path])(&mut b, nbytes)).map(|_| ()) };
+            dg = vharness::rng::fnv_u64(dg, r.is_ok() as u64 + 10);
             if r.is_ok() {
                 o.viol("C10", &format!("{sig}:nbytes>8-accepted"), case, &format!("{} accepted nbytes={nbytes}", ctx()));
             }
@@ -195,6 +197,11 @@ fn getter_case(o: &mut Obs, row: &getters::Row, path: usize, iname: &str, spec: 
         let want = if avail >= w { Some(getters::reference(&model[..w], row.end, row.ty)) } else { None };
         if which == 0 {
             let r = catch(|| (row.get[path])(&mut b, nbytes));
+            dg = vharness::rng::fnv_u64(dg, match &r {
+                Ok(v) => (*v as u64) ^ ((*v >> 64) as u64) ^ 0x11,
+                Err(_) => 0x22,
+            });
+            dg = vharness::rng::fnv_u64(dg, catch(|| b.remaining()).unwrap_or(0) as u64);
             match (r, want) {
                 (Ok(v), Some(wv)) => {
                     if v != wv {
@@ -214,6 +221,12 @@ fn getter_case(o: &mut Obs, row: &getters::Row, path: usize, iname: &str, spec: 
             }
         } else {
             let r = catch(|| (row.try_get[path])(&mut b, nbytes));
+            dg = vharness::rng::fnv_u64(dg, match &r {
+                Ok(Ok(v)) => (*v as u64) ^ ((*v >> 64) as u64) ^ 0x33,
+                Ok(Err(e)) => (e.requested as u64) << 32 | e.available as u64 | 1 << 63,
+                Err(_) => 0x44,
+            });
+            dg = vharness::rng::fnv_u64(dg, catch(|| b.remaining()).unwrap_or(0) as u64);
             match (r, want) {
                 (Ok(Ok(v)), Some(wv)) => {
                     if v != wv {
@@ -238,12 +251,14 @@ fn getter_case(o: &mut Obs, row: &getters::Row, path: usize, iname: &str, spec: 
             }
         }
     }
+    dg
 }
 
 fn getters_tbl(a: &Args, o: &mut Obs) {
     let shard = a.usize("shard", 0);
     let nshards = a.usize("nshards", 1).max(1);
     let deep = a.flag("deep");
+    let digest = a.flag("digest");
     let rows_filter = a.usize("max-rows", usize::MAX);
     let rows = getters::rows();
     let mut idx = 0usize;
@@ -258,6 +273,7 @@ fn getters_tbl(a: &Args, o: &mut Obs) {
                 }
                 let case = format!("tbl:get:{}:{nbytes}:{pi}", row.name);
                 vharness::out::journal(&case);
+                let mut rowdg = 0u64;
                 let endn = match row.end {
                     End::Be => "be",
                     End::Le => "le",
@@ -274,7 +290,7 @@ fn getters_tbl(a: &Args, o: &mut Obs) {
                     for cut2 in cut2s {
                         for (iname, spec) in implementors(pat, cut, cut2, &[0xC3, 0x3C]) {
                             for path in 0..3 {
-                                getter_case(o, row, path, iname, &spec, nbytes, w + 2, &case);
+                                rowdg = vharness::rng::fnv_u64(rowdg, getter_case(o, row, path, iname, &spec, nbytes, w + 2, &case));
                                 o.cell(format!("get|{}{}{}|w{w}|{iname}|{}|cut{}", tyn, if row.width == 0 { "var" } else { "" }, endn, PATHS[path], if cut == 0 || cut > w { "outside" } else if cut2.is_some() { "two-inside" } else { "inside" }));
                             }
                         }
@@ -282,19 +298,22 @@ fn getters_tbl(a: &Args, o: &mut Obs) {
                 }
                 // exactly enough bytes (nothing behind the value)
                 for (iname, spec) in implementors(pat, w / 2, None, &[]) {
-                    getter_case(o, row, pi % 3, iname, &spec, nbytes, w, &case);
+                    rowdg = vharness::rng::fnv_u64(rowdg, getter_case(o, row, pi % 3, iname, &spec, nbytes, w, &case));
                 }
                 // (2) every shortfall, boundary before / inside the available bytes
                 for avail in 0..w {
                     for cut in [0, avail / 2, avail] {
                         for (iname, spec) in implementors(&pat[..avail], cut, None, &[]) {
                             let path = (avail + cut + pi) % 3;
-                            getter_case(o, row, path, iname, &spec, nbytes, avail, &case);
+                            rowdg = vharness::rng::fnv_u64(rowdg, getter_case(o, row, path, iname, &spec, nbytes, avail, &case));
                             o.cell(format!("get|{}{}{}|w{w}|{iname}|short", tyn, if row.width == 0 { "var" } else { "" }, endn));
                         }
                     }
                 }
                 o.inc("table_rows");
+                if digest {
+                    println!("DIGEST get {}:{nbytes}:{pi} {rowdg:016x}", row.name);
+                }
             }
         }
     }
